@@ -1,14 +1,9 @@
 #!/bin/bash
-# tools/test_seed.sh <seeded dir>: run the repository's test suite (unedited) in a scratch worktree with the patch applied.
-# Known environment failures (tools/env_failing_tests.txt) are filtered from the summary.
+# tools/test_seed.sh <seeded dir> [njobs]: the repository's test suite (unedited) in a scratch worktree with the patch applied.
 D="$(realpath "$1")"; W=/tmp/testseed-$$
 git -C /repo worktree add -q "$W" HEAD || exit 2
-cd "$W"
-git apply "$D/patch.diff" || { echo "PATCH DOES NOT APPLY"; cd /; git -C /repo worktree remove --force "$W"; exit 3; }
-PATH=/venv/bin:$PATH PYTHONPATH=$W timeout 2400 /venv/bin/python -m pytest -q -p no:cacheprovider --timeout=900 tests -n 8 -q 2>&1 | tail -15 > /tmp/testseed-$$.log
-grep -E "^(FAILED|ERROR)" /tmp/testseed-$$.log | grep -v -E "keep_going|watch_chain|watch_outdated_amend2|static_nglob|amend_validate1|ctrl_z|script_cases_run_import" > /tmp/testseed-$$.bad
-tail -2 /tmp/testseed-$$.log
-if [ -s /tmp/testseed-$$.bad ]; then echo "UNEXPECTED FAILURES:"; cat /tmp/testseed-$$.bad; RC=1; else echo "TESTS OK (only known environment failures, if any)"; RC=0; fi
-cd /; git -C /repo worktree remove --force "$W"; rm -f /tmp/testseed-$$.log /tmp/testseed-$$.bad
+git -C "$W" apply "$D/patch.diff" || { echo "PATCH DOES NOT APPLY"; git -C /repo worktree remove --force "$W"; exit 3; }
+/verif/tools/test_tree.sh "$W" "${2:-6}"; RC=$?
 pkill -f "director $W" 2>/dev/null
+git -C /repo worktree remove --force "$W"
 exit $RC
